@@ -1,8 +1,14 @@
 import QipVerif.Util.GateIO
 import QipVerif.Gen.DecompTables
+import QipVerif.Gen.DecompLabels
 /-! Driver for the `resolve_gates` model (C03).
 
 * `resolve keep=0|1 basis=str:NAME | list:N1,N2,.. gates=<list>` → `ok <list>` | `err <kind>`
+* `resolvef v=<keepMarkers><keepCond><exactStr> basis=… items=<item;item;…>` → `ok <fgate;…>` | `err <kind>`
+  (every field of the emitted gate objects; `Model/DecomposeF.lean`)
+  item  = `M` (a measurement) | NAME/targets/controls/angle/label/cond
+  label = `n` | `f<k>_<m>` (the text kπ/m) | `u<id>` (a user's text)
+  cond  = `n` | `<bits>:<value>`            fgate = item fields + `/src` (`n` | index of the input gate passed through)
 -/
 open QipVerif QipVerif.Proto QipVerif.GateIO QipVerif.Decomp
 
@@ -15,6 +21,53 @@ def basis? (s : String) : Option BasisSpec :=
   else if s.startsWith "list:" then some (.list ((splitNE (s.drop 5).toString ",").map GName.ofString))
   else none
 
+def lab? (s : String) : Option Lab :=
+  if s == "n" then some .none
+  else if s.startsWith "u" then ((s.drop 1).toString.toNat?).map Lab.user
+  else if s.startsWith "f" then
+    match (s.drop 1).toString.splitOn "_" with
+    | [k, m] => match k.toInt?, m.toNat? with
+      | some k, some m => some (.frac k m)
+      | _, _ => none
+    | _ => none
+  else none
+
+def showLab : Lab → String
+  | .none => "n" | .frac k m => s!"f{k}_{m}" | .user i => s!"u{i}"
+
+def cond? (s : String) : Option (Option Cond) :=
+  if s == "n" then some none
+  else match s.splitOn ":" with
+    | [b, v] => match natsDot? b, v.toNat? with
+      | some bs, some v => some (some ⟨bs, v⟩)
+      | _, _ => none
+    | _ => none
+
+def showCond : Option Cond → String
+  | none => "n" | some c => s!"{showNatsDot c.bits}:{c.value}"
+
+def item? (s : String) : Option Item :=
+  if s == "M" then some .meas else
+  match s.splitOn "/" with
+  | [n, t, c, a, l, k] =>
+    match natsDot? t, natsDot? c, ang? a, lab? l, cond? k with
+    | some ts, some cs, some an, some lb, some cd => some (.gate ⟨GName.ofString n, ts, cs, an⟩ lb cd)
+    | _, _, _, _, _ => none
+  | _ => none
+
+def items? (s : String) : Option (List Item) :=
+  if s == "-" then some [] else (splitNE s ";").mapM item?
+
+def showF (f : FGate) : String :=
+  let src := match f.src with | some i => toString i | none => "n"
+  s!"{showGate f.g}/{showLab f.lab}/{showCond f.cond}/{src}"
+
+def variant? (s : String) : Option Variant :=
+  match s.toList with
+  | [a, b, c] =>
+    if [a, b, c].all (fun x => x == '0' || x == '1') then some ⟨a == '1', b == '1', c == '1'⟩ else none
+  | _ => none
+
 def step (line : String) : String :=
   let fs := fields line
   match fs.head? with
@@ -24,6 +77,14 @@ def step (line : String) : String :=
       match resolve Gen.tables (keep != 0) b gs with
       | .ok out => "ok " ++ showGates out
       | .error e => "err " ++ errName e
+    | _, _, _ => "bad-op"
+  | some "resolvef" =>
+    match (fStr? fs "v").bind variant?, (fStr? fs "basis").bind basis?, (fStr? fs "items").bind items? with
+    | some v, some b, some its =>
+      match resolveC Gen.tables Gen.labels v b its with
+      | .ok out => "ok " ++ (if out.isEmpty then "-" else ";".intercalate (out.map showF))
+      | .error .measurement => "err measurement"
+      | .error (.res e) => "err " ++ errName e
     | _, _, _ => "bad-op"
   | _ => "bad-op"
 
